@@ -1,3 +1,82 @@
-import SonicModel.Impl.Get
+/-
+  C10 — lazy `get` returns exactly what a full parse followed by lookup finds.
+-/
+import SonicModel.Lemmas.GetRefine
+import SonicModel.Lemmas.SpecBound
 namespace Sonic.Thm.C10
+open Sonic Gen Impl Spec
+
+/-- **checked `get` == specification lookup** (walker level): for every buffer, every start index
+    and every path of keys and indices, the checked walker (`get_from_object_checked`,
+    `get_from_array_checked`, then `skip_one`) finds a value exactly when the path resolves in
+    the text, returns exactly the source span of that value, and reports "not found" exactly
+    when the traversed text is well-formed but the key / index is absent. First member wins. -/
+theorem get_eq_lookup (buf : Buf) (path : List Step) (i : Nat) :
+    (getChecked buf.size buf i path).coarse = (look buf (skipWs buf i) path).coarse :=
+  getChecked_coarse buf path i
+
+/-- spelled out for success: the span returned is the span the specification finds -/
+theorem get_found_iff (buf : Buf) (path : List Step) (s e : Nat) :
+    getChecked buf.size buf 0 path = .found s e ↔ lookup buf path = .found s e := by
+  have h := getChecked_coarse buf path 0
+  unfold lookup
+  constructor
+  · intro hg
+    rw [hg] at h
+    cases hl : look buf (skipWs buf 0) path <;> simp_all [GRes.coarse, Look.coarse]
+  · intro hl
+    rw [hl] at h
+    cases hg : getChecked buf.size buf 0 path with
+    | found s' e' => simp_all [GRes.coarse, Look.coarse]
+    | err c p => simp [hg, GRes.coarse, Look.coarse] at h; split at h <;> simp at h
+    | fuel => simp [hg, GRes.coarse, Look.coarse] at h
+
+/-- the value found is a well-formed JSON value without surrounding whitespace, inside the input -/
+theorem look_found_wf (buf : Buf) : ∀ (path : List Step) (i s e : Nat), look buf i path = .found s e →
+    value false (Spec.fuelFor buf) buf s = .ok e ∧ s < e ∧ e ≤ buf.size := by
+  intro path
+  induction path with
+  | nil =>
+    intro i s e h
+    unfold look valueSpan at h
+    cases hv : value false (Spec.fuelFor buf) buf i with
+    | ok e' =>
+      simp [hv] at h
+      obtain ⟨rfl, rfl⟩ := h
+      exact ⟨hv, ((Spec.progress false buf _ _ _).1 hv).1, (Spec.bound false buf _ _ _).1 hv⟩
+    | err => simp [hv] at h
+    | fuel => simp [hv] at h
+  | cons st rest ih =>
+    intro i s e h
+    cases st with
+    | key k =>
+      unfold look at h
+      split at h
+      · simp only at h
+        split at h
+        · simp at h
+        · split at h
+          · exact ih _ s e h
+          · simp at h
+          · simp at h
+      · split at h <;> simp at h
+    | idx n =>
+      unfold look at h
+      split at h
+      · simp only at h
+        split at h
+        · simp at h
+        · split at h
+          · exact ih _ s e h
+          · simp at h
+          · simp at h
+      · split at h <;> simp at h
+
+/-! non-vacuity -/
+/-- `{"a":[1,{"b":"x"}]}` -/
+def ex1 : Buf := #[123, 34, 97, 34, 58, 91, 49, 44, 123, 34, 98, 34, 58, 34, 120, 34, 125, 93, 125]
+example : lookup ex1 [.key [97], .idx 1, .key [98]] = .found 13 16 := by decide +kernel
+example : getChecked ex1.size ex1 0 [.key [97], .idx 1, .key [98]] = .found 13 16 := by decide +kernel
+example : lookup ex1 [.key [99]] = .missing := by decide +kernel
+
 end Sonic.Thm.C10
